@@ -22,9 +22,11 @@ Representation.  The shape of the hierarchy never changes, so it is kept apart f
 association list in insertion order (a Go map has no order; the only place where the order could show is `Discover`,
 which sorts).  `chain ps l = [l, parent l, …, root]`.
 
-The static loader (ancestor of every root) is not a level of the model: it answers nil / false / nothing for every name
-that is not a core type, it is never written through the modelled operations, and the harness rejects lines that use the
-name of a core type (and restricts every discovery predicate to the names of the line).
+The static loader (ancestor of every root) answers nil / false / nothing for every name that is not a core type and is
+never written through the modelled operations.  A tree either leaves it out (roots `(p -1)`; the harness then rejects lines
+that use the name of a core type) or has it as node 0 (`(st)`: a `basicLoader` without parent — in the model a loader like
+any other — preloaded with the core types among the names of the line; only has / get / discover may address it).
+Every discovery predicate is restricted to the names of the line.
 
 Quirks reproduced: a miss through `load` leaves a placeholder in the addressed loader only (never in an ancestor);
 `Discover` skips own names by membership in the parent's ANSWER (it does not ask the parent again);
@@ -42,6 +44,7 @@ inductive V where
   | ty (n : Nat)
   | str (n : Nat)
   | al (name : String) (n : Nat)
+  | core (name : String)            -- a core type held by the static loader (lower-cased name)
   deriving DecidableEq, Repr, Inhabited
 
 /-- `_, ok := v.(px.Type)` -/
